@@ -88,7 +88,9 @@ impl<'a> Ctx<'a> {
             return None;
         }
         let evb = ev_bytes(ev);
+        let t0 = std::time::Instant::now();
         let o = won(phi, &evb, stake, total);
+        if std::env::var_os("VERIF_TRACE_SLOW").is_some() && t0.elapsed().as_secs_f64() > 1.0 { eprintln!("slow {:.1}s: {} phi={} ev-bits={} stake={} total={} -> {}", t0.elapsed().as_secs_f64(), tag, phi, ev.bits(), stake, total, o); }
         let ln = (1.0 - phi).ln();
         let req = format!(
             "c08.won phi={:016x} ln={:016x} ev={} stake={} total={} obs={}",
@@ -134,18 +136,21 @@ fn main() {
 
     // the edges of the domain (never met by the grids below): phi_f outside (0, 1], non-finite phi_f, total stake 0,
     // stake above the total. The model has a branch for each (`f64ToRat = none`, `total = 0`, negative `x`).
-    for phi in [0.0f64, -0.0, -0.5, -1e300, 1.5, 2.0, f64::NAN, f64::INFINITY, f64::NEG_INFINITY, 1.0 + f64::EPSILON, 1.0 + 2.0 * f64::EPSILON, 1e-320, 0.2] {
+    for phi in [0.0f64, -0.0, -0.5, -1e300, -1e30, 1.5, 2.0, f64::NAN, f64::INFINITY, f64::NEG_INFINITY, 1.0 + f64::EPSILON, 1.0 + 2.0 * f64::EPSILON, 1e-320, 0.2] {
         for ev in [BigUint::zero(), BigUint::one(), BigUint::one() << 510usize, max512.clone()] {
             // (a stake far above the total makes one call run for minutes — DESIGN 0.2b —: only a mild excess here)
             for (stake, total) in [(0u64, 0u64), (1, 0), (0, 1), (1, 1), (5, 3), (3, 10)] {
+                // phi_f = -1e300 makes x = -690.8 * stake / total: 1000 rounds on rationals of that size take ~25 s per
+                // call in this build; one such call is enough (the -1e30 value below takes the same branch in 1 s)
+                if phi == -1e300 && stake >= total && total > 0 && !(ev.is_zero() && stake == 1) { continue; }
                 ctx.emit("domain-edge", phi, &ev, stake, total);
             }
         }
     }
 
-    let reps = if args.thorough() { 40 } else { 1 };
+    let reps = if args.thorough() { 6 } else { 1 };
     let jmax = if args.thorough() { 200 } else { 130 };
-    let jstep = if args.thorough() { 1 } else { 13 };
+    let jstep = if args.thorough() { 3 } else { 13 };
     for &phi in &phis {
         for &total in &totals {
             let mut stakes: Vec<u64> = vec![0, 1, total / 3, total / 2, total - 1, total];
@@ -263,7 +268,7 @@ fn main() {
         }
     }
     // random everything
-    let n = if args.thorough() { 200_000 } else { 2_000 };
+    let n = if args.thorough() { 50_000 } else { 2_000 };
     for _ in 0..n {
         let phi = match rng.below(4) {
             0 => *rng.pick(&phis),
